@@ -32,7 +32,17 @@ func weighted(w map[string]int) []string {
 
 var stepKinds = weighted(map[string]int{"acq": 10, "fin": 4, "rel": 7, "rel2": 3, "relf": 2, "cancel": 3, "open": 3})
 
-func genStep(addrs, threads int) func(t *rapid.T) Step {
+func genStep(addrs, threads int) func(t *rapid.T) Step { return genStepN(addrs, threads, 0) }
+
+// genStepN: imax > 0 widens the candidate indices (which are taken modulo the
+// number of candidates) so that every one of many candidates can be picked.
+func genStepN(addrs, threads, imax int) func(t *rapid.T) Step {
+	idx := func(t *rapid.T, small int) int {
+		if imax > 0 && rapid.Bool().Draw(t, "wide") {
+			return rapid.IntRange(0, imax).Draw(t, "i")
+		}
+		return rapid.IntRange(0, small).Draw(t, "i")
+	}
 	return func(t *rapid.T) Step {
 		st := Step{K: rapid.SampledFrom(stepKinds).Draw(t, "k")}
 		switch st.K {
@@ -50,19 +60,19 @@ func genStep(addrs, threads int) func(t *rapid.T) Step {
 			st.G = rapid.SampledFrom(oneIn8).Draw(t, "g")
 			st.D = rapid.SampledFrom(oneIn10).Draw(t, "d")
 		case "fin":
-			st.I = rapid.IntRange(0, 2).Draw(t, "i")
+			st.I = idx(t, 2)
 			st.OK = rapid.SampledFrom(twoIn3).Draw(t, "ok")
 			st.G = rapid.SampledFrom(oneIn3).Draw(t, "g")
 		case "rel":
-			st.I = rapid.IntRange(0, 7).Draw(t, "i")
+			st.I = idx(t, 7)
 			st.All = rapid.SampledFrom(oneIn3).Draw(t, "all")
 		case "rel2", "relf":
-			st.I = rapid.IntRange(0, 7).Draw(t, "i")
+			st.I = idx(t, 7)
 		case "cancel":
-			st.I = rapid.IntRange(0, 3).Draw(t, "i")
+			st.I = idx(t, 3)
 			st.G = rapid.SampledFrom(oneIn3).Draw(t, "g")
 		case "open":
-			st.I = rapid.IntRange(0, 3).Draw(t, "i")
+			st.I = idx(t, 3)
 		}
 		return st
 	}
@@ -81,6 +91,7 @@ var (
 	ctxKinds  = []string{"bg", "bg", "bg", "bg", "bg", "bg", "bg", "bg", "bg", "own", "own", "own", "own", "own", "own", "pre"}
 	dialModes = []int{0, 0, 0, 0, 0, 0, 0, 0, 0, 1, 1, 1, 1, 1, 1, 1, 1, 2, 2, 2}
 	oneIn3    = bools(1, 3)
+	oneIn5    = bools(1, 5)
 	twoIn3    = bools(2, 3)
 	oneIn8    = bools(1, 8)
 	oneIn10   = bools(1, 10)
@@ -177,7 +188,31 @@ func replayOne(t *testing.T, rf *vstat.ReplayFile) string {
 	if rf.Property != "C16" {
 		return "replay file is for property " + rf.Property + ", this engine decides C16"
 	}
-	if rf.Kind == "stress" {
+	switch {
+	case rf.Part == "storm":
+		var sc StormCase
+		if err := json.Unmarshal(rf.Scenario, &sc); err != nil {
+			return "bad storm case: " + err.Error()
+		}
+		for i := 0; i < 20; i++ { // same virtual instants, another real schedule each time
+			if _, err := runStorm(t, &sc); err != nil {
+				return err.Error()
+			}
+		}
+		return ""
+	case rf.Part == "convoy":
+		var cc ConvoyCase
+		if err := json.Unmarshal(rf.Scenario, &cc); err != nil {
+			return "bad convoy case: " + err.Error()
+		}
+		for i := 0; i < 50; i++ {
+			if _, err := runConvoy(&cc); err != nil {
+				return err.Error()
+			}
+		}
+		return ""
+	}
+	if rf.Kind == "stress" || rf.Part == "stress" {
 		var r StressRound
 		if err := json.Unmarshal(rf.Scenario, &r); err != nil || r.Workers < 1 || r.Addrs < 1 {
 			return fmt.Sprintf("bad stress round: %v", err)
